@@ -33,7 +33,8 @@ type Op struct {
 	} `json:"post"`
 	T struct {
 		Rb  bool  `json:"rb"`
-		Gap bool  `json:"gap"`
+		Gap int   `json:"gap"`
+		Off bool  `json:"off"`
 		Nr  int   `json:"nr"`
 		Rel []int `json:"rel"`
 		Bx  bool  `json:"bx"`
@@ -48,7 +49,7 @@ func (o Op) class() string {
 	}
 	rel := append([]int{}, o.T.Rel...)
 	sort.Ints(rel)
-	return fmt.Sprintf("rb=%v gap=%v nr=%d k=%s pre=%v rel=%v bx=%v", o.T.Rb, o.T.Gap, nr, o.K, o.K != "none" && o.At == 0, rel, o.T.Bx)
+	return fmt.Sprintf("rb=%v gap=%v off=%v nr=%d k=%s pre=%v rel=%v bx=%v", o.T.Rb, o.T.Gap, o.T.Off, nr, o.K, o.K != "none" && o.At == 0, rel, o.T.Bx)
 }
 
 func (o Op) post() AbsState { return AbsState{Synced: o.Post.Synced, Rows: o.Post.Stored} }
@@ -63,6 +64,8 @@ type Plan struct {
 	Precond                                 string
 	FKinds                                  []string
 	NoBad                                   bool
+	GapSet                                  []int // Extend(k): runs of k eventless blocks in one step
+	MaxRuns                                 int
 	MinForkNum, SyncFrom                    int // shape long chains: forks / syncs only at or above these block numbers
 	SimNum, SimLen                          int // > 0: behaviours come from TLC simulation
 	Flavors                                 []string
@@ -88,6 +91,14 @@ func (p Plan) cfgFor(fl string) Cfg {
 	return Cfg{D: p.D, MaxR: p.MaxR, Start0: start, ErrM: errm, Reorg: reorg}
 }
 
+func intList(l []int) string {
+	q := []string{}
+	for _, n := range l {
+		q = append(q, fmt.Sprint(n))
+	}
+	return strings.Join(q, ", ")
+}
+
 func quoteList(l []string) string {
 	q := []string{}
 	for _, s := range l {
@@ -110,8 +121,8 @@ func (p Plan) cfgText(errm, reorg string, sim bool) string {
 	}
 	fmt.Fprintf(&b, "CONSTANTS\n  MaxBlocks = %d\n  MaxNum = %d\n  MaxLeaves = %d\n  MaxEvents = %d\n  KeySeq <- cKeySeq\n",
 		p.MaxBlocks, p.MaxNum, p.MaxLeaves, p.MaxEvents)
-	fmt.Fprintf(&b, "  D = %d\n  MaxR = %d\n  Start0 = %d\n  ErrMode = %q\n  Reorg = %q\n  Precond = %q\n  FKinds = {%s}\n  Emit = TRUE\n  SimLen = %d\n  MinForkNum = %d\n  SyncFrom = %d\n  AllowBad = %s\n",
-		p.D, p.MaxR, p.Start0, errm, reorg, p.Precond, quoteList(p.FKinds), simLen, p.MinForkNum, p.SyncFrom, strings.ToUpper(fmt.Sprint(!p.NoBad)))
+	fmt.Fprintf(&b, "  D = %d\n  MaxR = %d\n  Start0 = %d\n  ErrMode = %q\n  Reorg = %q\n  Precond = %q\n  FKinds = {%s}\n  Emit = TRUE\n  SimLen = %d\n  MinForkNum = %d\n  SyncFrom = %d\n  AllowBad = %s\n  GapSet = {%s}\n  MaxRuns = %d\n",
+		p.D, p.MaxR, p.Start0, errm, reorg, p.Precond, quoteList(p.FKinds), simLen, p.MinForkNum, p.SyncFrom, strings.ToUpper(fmt.Sprint(!p.NoBad)), intList(p.GapSet), p.MaxRuns)
 	fmt.Fprintf(&b, "SPECIFICATION Spec\nINVARIANT C15_InvCex\nINVARIANT EmitInv\nVIEW View\nCHECK_DEADLOCK FALSE\n")
 	return b.String()
 }
@@ -254,6 +265,8 @@ func replayBehaviour(p Plan, fl string, seed int64, hist []Op, enum bool, rec *r
 			w.Mine(op.A, op.Ev)
 		case "switch":
 			w.Switch(op.A)
+		case "ext":
+			w.Extend(op.A)
 		case "sync":
 			st.Syncs++
 			snap := w.PG.Snapshot()
@@ -546,6 +559,17 @@ func plansC15(thorough bool) []Plan {
 		{Name: "d10-edge", MaxBlocks: d(14, 15), MaxNum: d(12, 13), MaxLeaves: 2, MaxEvents: d(1, 2), Keys: []string{"k1", "k2"}, NoBad: true,
 			D: constDepth, MaxR: constRange, Start0: 1, Precond: "depth", FKinds: []string{"db"}, MinForkNum: 10, SyncFrom: 11,
 			Flavors: []string{FlRegistry, FlSequencer, FlMulti}, Stretch: 1, MaxBeh: d(150, 1500), EnumEvery: d(8, 4)},
+		// large gaps relative to the code's constants, modelled as ONE step "extend by k" (a run record),
+		// materialised by fakeeth: k = depth-1, depth, depth+1 and request range + 1, after fork switches
+		// that were seen only as a step back or a head of the same height; all three syncers with the
+		// constants 10 / 10000 (chains of up to 10 000+ real blocks)
+		{Name: "gap-const", MaxBlocks: 4, MaxNum: 3, MaxLeaves: 2, MaxEvents: 2, Keys: []string{"k1", "k2"}, NoBad: true,
+			D: constDepth, MaxR: constRange, Start0: 1, Precond: "depth", FKinds: []string{"db"}, GapSet: []int{constDepth - 1, constDepth, constDepth + 1, constRange + 1}, MaxRuns: 1,
+			Flavors: []string{FlRegistry, FlSequencer, FlMulti}, Stretch: 1, MaxBeh: d(120, 1000), EnumEvery: d(8, 4)},
+		// the same with the MultiEventSyncer's settable constants (depth 2, range 4), two runs
+		{Name: "gap-multi", MaxBlocks: 4, MaxNum: 3, MaxLeaves: 2, MaxEvents: 2, Keys: []string{"k1", "k2"}, NoBad: true,
+			D: 2, MaxR: 4, Start0: 1, Precond: "depth", FKinds: []string{"db"}, GapSet: []int{2, 3, 5}, MaxRuns: 2,
+			Flavors: []string{FlMulti}, Stretch: 1, MaxBeh: d(200, 2000), EnumEvery: d(8, 4)},
 		// exhaustive, the constants of the two other syncers (depth 10, one range): every reorg rolls back to 0
 		{Name: "const-d10-small", MaxBlocks: d(5, 6), MaxNum: 4, MaxLeaves: 2, MaxEvents: 2, Keys: []string{"k1", "k2"},
 			D: constDepth, MaxR: constRange, Start0: 0, Precond: "depth", FKinds: all,
@@ -777,6 +801,8 @@ func histString(h []Op) string {
 			parts = append(parts, fmt.Sprintf("mine(b%d,%q)", o.A, o.Ev))
 		case "switch":
 			parts = append(parts, fmt.Sprintf("head(b%d)", o.A))
+		case "ext":
+			parts = append(parts, fmt.Sprintf("extend(%d)", o.A))
 		case "sync":
 			if o.K == "none" {
 				parts = append(parts, "sync")
@@ -851,6 +877,8 @@ func replayBehaviourWithFault(p Plan, fl string, seed int64, hist []Op, f ConcFa
 			w.Mine(op.A, op.Ev)
 		case "switch":
 			w.Switch(op.A)
+		case "ext":
+			w.Extend(op.A)
 		case "sync":
 			lastStep := i == len(hist)-1
 			snap := w.PG.Snapshot()
